@@ -367,7 +367,7 @@ type c12Replay struct {
 func c12Explore(c *Ctx, e *c12Env, sc c12Scenario, bound int, prune bool) {
 	var first []int
 	firstOrder := ""
-	stats := explore.Run(explore.Config{MaxCost: bound, Prune: prune, Deadline: c.Deadline, Shard: c.Shard, Shards: c.Shards, ShardDepth: 3}, func(x *explore.Exec, own bool) {
+	stats := explore.Run(explore.Config{Stop: schedStuck, MaxCost: bound, Prune: prune, Deadline: c.Deadline, Shard: c.Shard, Shards: c.Shards, ShardDepth: 3}, func(x *explore.Exec, own bool) {
 		res := c12Exec(e, sc, x, prune, c.Seed)
 		if !own {
 			return
